@@ -41,6 +41,7 @@ def c07_configs(tier):
             out.append(pair(2, 1, [0, 1], SEED=0, PRIME=2, **k))     # 11 bits, numbering by the loader
     for (enc, sel, src) in UNIMPLEMENTED + (UNIMPLEMENTED_TOSTRING if OSTRINGSTREAM_MODELLED else []):
         out.append(pair(1, 1, [0, 0, 1], ENC=enc, SEL=sel, SIMSRC=src))   # 8 bits
+    out.sort(key=lambda d: 0 if '_time' in d else 1)      # the long queries first
     return out
 
 CHECKS = {
